@@ -394,12 +394,12 @@ def bce_loss_backward(grad: np.ndarray, y_pred: np.ndarray, y_true: np.ndarray) 
 
 
 def bce_with_logits_loss_forward(y_pred: np.ndarray, y_true: np.ndarray) -> np.ndarray:
-    tn = -relu_forward(y_pred)
+    tn = relu_forward(-y_pred)
     loss = (1-y_true) * y_pred + tn + np.log(np.exp(-tn) + np.exp((-y_pred-tn)))
     return loss
 
 def bce_with_logits_loss_backward(grad: np.ndarray, y_pred: np.ndarray, y_true: np.ndarray) -> np.ndarray:
-    tn = -relu_forward(y_pred)
+    tn = relu_forward(-y_pred)
     dtn = np.where(tn == 0, 0, -1)
     div1 = -dtn*np.exp(-tn) + (-1-dtn)*np.exp((-y_pred-tn))
     div2 = np.exp(-tn) + np.exp((-y_pred-tn))
